@@ -271,3 +271,42 @@ package allocation
 //@   ensures [C06,C15:closed] old(allocOf(m, fiveTuple.SrcAddr, fiveTuple.DstAddr, int(fiveTuple.Protocol))) != nil ==> closed(old(allocOf(m, fiveTuple.SrcAddr, fiveTuple.DstAddr, int(fiveTuple.Protocol))).closed)
 //@   ensures [C15:event-once] allocDeletedEvents == old(allocDeletedEvents) + ((old(allocOf(m, fiveTuple.SrcAddr, fiveTuple.DstAddr, int(fiveTuple.Protocol))) != nil && m.EventHandler.OnAllocationDeleted != nil) ? 1 : 0)
 //@   ensures [C15:absent-noop] old(allocOf(m, fiveTuple.SrcAddr, fiveTuple.DstAddr, int(fiveTuple.Protocol))) == nil ==> socketsClosed == old(socketsClosed)
+//@   assigns entries(m.allocations), channels, timers, socketsClosed, allocDeletedEvents, entries(allocOf(m, fiveTuple.SrcAddr, fiveTuple.DstAddr, int(fiveTuple.Protocol)).tcpConnections), entries(allocOf(m, fiveTuple.SrcAddr, fiveTuple.DstAddr, int(fiveTuple.Protocol)).permissions), allocOf(m, fiveTuple.SrcAddr, fiveTuple.DstAddr, int(fiveTuple.Protocol)).channelBindings, mem(allocOf(m, fiveTuple.SrcAddr, fiveTuple.DstAddr, int(fiveTuple.Protocol)).channelBindings)
+
+//@      // ---- allocation creation (C03, C04, C06, C15, C19)
+//@ spec func mapsSame(m *Manager) bool = forall k :: haskey(m.allocations, k) == old(haskey(m.allocations, k)) && valat(m.allocations, k) == old(valat(m.allocations, k))
+
+//@ func (*Manager).CreateAllocation$1
+//@   requires m != nil && m.log != nil && alloc != nil && alloc.fiveTuple != nil
+//@   requires allocOf(m, alloc.fiveTuple.SrcAddr, alloc.fiveTuple.DstAddr, int(alloc.fiveTuple.Protocol)) != nil ==> closeReady(allocOf(m, alloc.fiveTuple.SrcAddr, alloc.fiveTuple.DstAddr, int(alloc.fiveTuple.Protocol)))
+//@   ensures [C06:expiry] allocOf(m, alloc.fiveTuple.SrcAddr, alloc.fiveTuple.DstAddr, int(alloc.fiveTuple.Protocol)) == nil
+
+//@ func (*Manager).CreateAllocation
+//@   requires m.log != nil && m.allocations != nil && m.allocatePacketConn != nil && m.allocateListener != nil
+//@   requires [C03:authed] authOK && userID == authUser
+//@   ensures [C04:no-dup] fiveTuple != nil && old(allocOf(m, fiveTuple.SrcAddr, fiveTuple.DstAddr, int(fiveTuple.Protocol))) != nil ==> res1 != nil
+//@   ensures [C04,C15:fail-clean] res1 != nil ==> res0 == nil && (forall k :: haskey(m.allocations, k) == old(haskey(m.allocations, k)) && valat(m.allocations, k) == old(valat(m.allocations, k))) && allocCreatedEvents == old(allocCreatedEvents)
+//@   ensures [C04,C19:installed] res1 == nil ==> res0 != nil && fresh(res0) && fiveTuple != nil && allocOf(m, fiveTuple.SrcAddr, fiveTuple.DstAddr, int(fiveTuple.Protocol)) == res0
+//@   ensures [C04:frame] res1 == nil ==> forall k :: k != tupleKey(fiveTuple.SrcAddr, fiveTuple.DstAddr, int(fiveTuple.Protocol)) ==> haskey(m.allocations, k) == old(haskey(m.allocations, k)) && valat(m.allocations, k) == old(valat(m.allocations, k))
+//@   ensures [C04,C19:fields] res1 == nil ==> res0.fiveTuple == fiveTuple && res0.TurnSocket == turnSocket && res0.userID == userID && res0.realm == realm && res0.addressFamily == addressFamily
+//@   ensures [C06:timer] res1 == nil ==> timerSet(res0.lifetimeTimer, lifetime) && clofn(timerfn(res0.lifetimeTimer)) == fnid("(*Manager).CreateAllocation$1")
+//@   ensures [C15:created-event] res1 == nil ==> allocCreatedEvents == old(allocCreatedEvents) + (m.EventHandler.OnAllocationCreated != nil ? 1 : 0)
+//@   ensures [C15,C20:relay-open] res1 == nil && int(protocol) == 17 ==> res0.relayPacketConn != nil && socketsOpened == old(socketsOpened) + 1
+//@   ensures [C15,C20:listener-open] res1 == nil && int(protocol) == 6 ==> res0.relayListener != nil && socketsOpened == old(socketsOpened) + 1
+//@   ensures [C15:fail-no-socket] res1 != nil ==> socketsOpened == old(socketsOpened)
+//@   assigns entries(m.allocations), timers, socketsOpened, allocCreatedEvents
+//@   ensures res1 == nil ==> allocWF(res0) && permTimers(res0) && chanTimers(res0) && timersDisjoint(res0) && chansWF(res0) && chanPeersNonNil(res0) && permKeysOK(res0) && res0.lifetimeTimer != nil && res0.closed != nil && !closed(res0.closed)
+
+//@      // ---- port reservations / even-port probing (EVEN-PORT, RESERVATION-TOKEN)
+//@ func (*Manager).GetReservation
+//@   requires forall i :: 0 <= i && i < len(m.reservations) ==> m.reservations[i] != nil
+//@   pure
+//@   loop 0 invariant -1 <= rangeindex && rangeindex < len(m.reservations) && (forall i :: 0 <= i && i < len(m.reservations) ==> m.reservations[i] != nil)
+//@   loop 0 decreases len(m.reservations) - rangeindex
+
+//@ func (*Manager).GetRandomEvenPort
+//@   requires m.allocatePacketConn != nil
+//@   ensures [C15,C20:probes-closed] socketsOpened - socketsClosed == old(socketsOpened - socketsClosed)
+//@   ensures [C20:even] res1 == nil ==> res0 % 2 == 0
+//@   assigns socketsOpened, socketsClosed
+//@   loop 0 invariant socketsOpened - socketsClosed == old(socketsOpened - socketsClosed) && m.allocatePacketConn != nil
